@@ -36,7 +36,7 @@ reg = {
  'C15': (P('FlatRelabel') + Q('Relabel','AddFrom','Homology'), ['Flat.Inv.map','Flat.relabelSimplex_inv','Flat.fold_relabel_eq_map','Flat.relabel_spec','Flat.relabel_spec_pos','Flat.relabel_ok_iff','Flat.relabel_rejected','Flat.relabel_chain_rejected','Flat.freshArrow_fuel','Flat.disjointRenaming_spec','Flat.relabelDisjointFrom_spec','Flat.addFrom_spec','Flat.betti_relabel_invariant']),
  'C16': (P('Compose','Compose2') + Q('Copy'), ['Flat.compose_union','Flat.compose_ok_iff','Flat.composeNew_eq','Flat.composeNew_spec']),
  'C17': (P('Compose') + Q('Copy','Json'), ['Flat.compose_union','Flat.copyNew_spec','Flat.copy_eq','Flat.decode_encode_eq_copy','Flat.decode_encode','Flat.decode_encode_perm','Flat.encode_names','Flat.encode_faces_before','Flat.addSimplex_perm','Flat.decode_any_face_order','Flat.decode_encode_any_order']),
- 'C18': (P('FlatCount') + Q('Generators'), ['Flat.full_simplex_counts','Flat.addWB_full','Flat.genPoints_spec','Flat.kSimplex_spec','Flat.kSimplex_counts','Flat.kVoid_spec','Flat.kVoid_counts','Flat.kSkeleton_spec','Flat.kSkeleton_counts','Flat.ring_spec',"Flat.ring_counts'",'Flat.ring_small']),
+ 'C18': (P('FlatCount') + Q('Generators','BettiFam','GenBettiA','GenBettiB','GenBettiC','GenBettiD','GenBettiE','GenBettiF','GenBettiG'), ['Flat.full_simplex_counts','Flat.addWB_full','Flat.genPoints_spec','Flat.kSimplex_spec','Flat.kSimplex_counts','Flat.kVoid_spec','Flat.kVoid_counts','Flat.kSkeleton_spec','Flat.kSkeleton_counts','Flat.ring_spec',"Flat.ring_counts'",'Flat.ring_small','Flat.betti_fam_invariant'] + ['Flat.GenBetti.kSimplex_betti_0', 'Flat.GenBetti.kSimplex_betti_1', 'Flat.GenBetti.kSimplex_betti_2', 'Flat.GenBetti.kSimplex_betti_3', 'Flat.GenBetti.kSimplex_betti_4', 'Flat.GenBetti.kVoid_betti_0', 'Flat.GenBetti.kVoid_betti_1', 'Flat.GenBetti.kVoid_betti_2', 'Flat.GenBetti.kVoid_betti_3', 'Flat.GenBetti.kSimplex_betti_5', 'Flat.GenBetti.kVoid_betti_4', 'Flat.GenBetti.ring_betti_3', 'Flat.GenBetti.ring_betti_4', 'Flat.GenBetti.ring_betti_5', 'Flat.GenBetti.ring_betti_6', 'Flat.GenBetti.ring_betti_7', 'Flat.GenBetti.ring_betti_8', 'Flat.GenBetti.ring_betti_9', 'Flat.GenBetti.ring_betti_10', 'Flat.GenBetti.ring_betti_11', 'Flat.GenBetti.ring_betti_12', 'Flat.GenBetti.lattice_betti_2_1', 'Flat.GenBetti.lattice_betti_2_2', 'Flat.GenBetti.lattice_betti_2_3', 'Flat.GenBetti.lattice_betti_2_4', 'Flat.GenBetti.lattice_betti_3_1', 'Flat.GenBetti.lattice_betti_3_2', 'Flat.GenBetti.lattice_betti_3_3', 'Flat.GenBetti.lattice_betti_3_4', 'Flat.GenBetti.lattice_betti_4_1', 'Flat.GenBetti.lattice_betti_4_2']),
  'C19': (P('Integrate','Betti','FlatRestrict2') + Q('Euler'), ['sum_levels','M2.euler_poincare','Flat.restrict_spec','Flat.euler_def','Flat.levelSet_spec','Flat.levelSet_nested','Flat.integrate_levels','Flat.integrate_minsum','Flat.integrate_points','Flat.integrate_additive']),
  'C20': (P('Embedding','Lattice') + Q('LatticeEmb'), ['Lat.pRat_eq','Lat.latticePos_eq','Lat.latticeXY_eq','Lat.reduce_val','Lat.latticeXY_injective','Lat.latticePos_injective','Lat.latticeXY_in_box','Emb.assigned_wins','Emb.computed_once','Emb.wrong_dim_rejected','Emb.higher_order_rejected','Emb.clear_recomputes','Lattice.lattice_injective','Lattice.lattice_in_box']),
 }
